@@ -351,4 +351,4 @@ def run_shard(ctx):
     quick = ctx.tier == "quick"
     ctx.drive("ledger", gen.run_case(T_max=200 if quick else 500, n_range=(100, 700) if quick else (100, 1500),
                                      laws=LAWS, poo_ok_only=True, gpo_ok_only=True, script_prob=0.25, T_min=5),
-              check_case, ctx.budget(5000, 24000))
+              check_case, ctx.budget(5000, 40000))
